@@ -40,6 +40,10 @@ def quadInvTimeMap [NumOrd α] (sqrt : α → α) : TimeMap α :=
 def affineTimeMap [Num α] (a b : α) : TimeMap α :=
   ⟨fun tau => a * tau + b, fun T => (T - b) / a, fun _ _ g => g * a⟩
 
+/-- a user map used by the harness whose `backward` needs the decoded duration: `T = b / (1 − a·τ)`, `dT/dτ = a·T²/b` -/
+def recipTimeMap [Num α] (a b : α) : TimeMap α :=
+  ⟨fun tau => b / (lit 1 - a * tau), fun T => (lit 1 - b / T) / a, fun _ T g => g * a * T * T / b⟩
+
 /-! ### spatial maps -/
 structure SpatialMap (α : Type) where
   udim : Nat → Nat
@@ -384,6 +388,15 @@ def evalCore [NumOrd α] (c : Config α) (dc : Decoded α) (costs : Costs α) : 
   { cost := cost3, g := g2, samples := segs.flatMap (·.2), segCosts := segCosts, timeCost := tc, wpCost := wc,
     energy := sp.energy, spline := sp }
 
+/-- gradient w.r.t. waypoint `i` (`0` = start, `n` = end) -/
+def pointGradOf (n : Nat) (g2 : GradsND α) (i : Nat) : Vec α :=
+  if i = 0 then g2.start.p else if i = n then g2.fin.p else g2.inner.getD (i - 1) []
+
+/-- gradient w.r.t. a boundary-derivative block -/
+def blockGradOf (g2 : GradsND α) : DBlock → Vec α
+  | .sv => g2.start.v | .sa => g2.start.a | .sj => g2.start.j
+  | .ev => g2.fin.v | .ea => g2.fin.a | .ej => g2.fin.j
+
 /-- the end of `evaluate`: pull the gradient back through the maps and scatter it into the decision-vector layout -/
 def assemble [Num α] (c : Config α) (x : List α) (times : List α) (g2 : GradsND α) : List α :=
   let L := c.layout
@@ -393,14 +406,9 @@ def assemble [Num α] (c : Config α) (x : List α) (times : List α) (g2 : Grad
       c.tm.backward (x.getD i (lit 0)) (times.getD i (lit 0)) (g2.times.getD i (lit 0))))
   let gx2 := L.vars.foldl (fun gx v =>
       let xi := segment x v.offset v.dof
-      let gp := if v.point = 0 then g2.start.p else if v.point = n then g2.fin.p
-                else g2.inner.getD (v.point - 1) []
-      writeAt gx v.offset (c.sm.backwardGrad xi gp v.point)) gx1
-  let blockGrad : DBlock → Vec α
-    | .sv => g2.start.v | .sa => g2.start.a | .sj => g2.start.j
-    | .ev => g2.fin.v | .ea => g2.fin.a | .ej => g2.fin.j
+      writeAt gx v.offset (c.sm.backwardGrad xi (pointGradOf n g2 v.point) v.point)) gx1
   let (gx3, _) := (derivBlocks c.order c.flags).foldl
-      (fun (acc : List α × Nat) b => (writeAt acc.1 acc.2 (blockGrad b), acc.2 + c.dim))
+      (fun (acc : List α × Nat) b => (writeAt acc.1 acc.2 (blockGradOf g2 b), acc.2 + c.dim))
       (gx2, L.derivOffset)
   gx3
 
